@@ -5,6 +5,7 @@ package harness
 
 import (
 	"context"
+	"encoding/json"
 	"fmt"
 	"runtime"
 	"sort"
@@ -130,7 +131,7 @@ func (r *recRegistry) take() []recSample {
 // the running goroutine yields Yields[i] times. It never blocks.
 type sched struct {
 	mu     sync.Mutex
-	yields []uint8
+	yields yieldList
 	next   int
 	Trace  []string
 	delays []uint16 // virtual milliseconds a slow delegate spends inside successive Acquire calls (0 = none)
@@ -148,7 +149,40 @@ func (s *sched) arm(on bool) {
 	s.mu.Unlock()
 }
 
-func newSched(yields []uint8) *sched { return &sched{yields: yields} }
+func newSched(yields yieldList) *sched { return &sched{yields: yields} }
+
+// yieldList is a generated schedule (yield counts); it is written as a JSON array of numbers
+// (plain []uint8 would be base64) and still reads the older base64 form of saved cases.
+type yieldList []uint8
+
+func (y yieldList) MarshalJSON() ([]byte, error) {
+	out := make([]int, len(y))
+	for i, v := range y {
+		out[i] = int(v)
+	}
+	return json.Marshal(out)
+}
+
+func (y *yieldList) UnmarshalJSON(b []byte) error {
+	if len(b) > 0 && b[0] == '"' {
+		var raw []byte
+		if err := json.Unmarshal(b, &raw); err != nil {
+			return err
+		}
+		*y = raw
+		return nil
+	}
+	var ints []int
+	if err := json.Unmarshal(b, &ints); err != nil {
+		return err
+	}
+	out := make(yieldList, len(ints))
+	for i, v := range ints {
+		out[i] = uint8(v)
+	}
+	*y = out
+	return nil
+}
 
 func (s *sched) Point(name string) {
 	if s == nil {
